@@ -34,11 +34,11 @@ func genFault(t *rapid.T) vlib.NCFault {
 	switch rapid.IntRange(0, 9).Draw(t, "fault-shape") {
 	case 0, 1, 2, 3: // none
 	case 4:
-		f.Edit = "warn"
+		f.Edit = rapid.SampledFrom([]string{"warn", "warn-nomsg"}).Draw(t, "edit-warning")
 	case 5:
-		f.Edit = rapid.SampledFrom([]string{"err", "err", "eof"}).Draw(t, "edit")
+		f.Edit = rapid.SampledFrom([]string{"err", "err", "eof", "timeout"}).Draw(t, "edit")
 	case 6:
-		f.Commit = rapid.SampledFrom([]string{"err", "err", "eof"}).Draw(t, "commit")
+		f.Commit = rapid.SampledFrom([]string{"err", "err", "eof", "timeout", "conn"}).Draw(t, "commit")
 	case 7:
 		f.Edit = "err"
 		f.Discard = rapid.SampledFrom([]string{"err", "eof"}).Draw(t, "discard")
@@ -69,7 +69,7 @@ func gen(t *rapid.T) *Case {
 
 var prop = vlib.Prop[*Case]{
 	ID: "C18",
-	Rule: "case = generated history (1..6 transactions over the plain / choice universes, repeated intents give empty change documents) run through the real datastore whose southbound target is the real ncTarget around a fake netconf.Driver modelling a device with a shared candidate; commit-datastore and the three rendering options are drawn per case; a fault script per transaction makes the next EditConfig / Commit / Discard succeed, succeed with a warning reply, fail with an rpc-error (the candidate may hold a part of the edit) or kill the connection (EOF, IsAlive false); " +
+	Rule: "case = generated history (1..6 transactions over the plain / choice universes, repeated intents give empty change documents) run through the real datastore whose southbound target is the real ncTarget around a fake netconf.Driver modelling a device with a shared candidate; commit-datastore and the three rendering options are drawn per case; a fault script per transaction makes the next EditConfig / Commit / Discard succeed, succeed with a warning reply (with or without the optional error-message), fail with an rpc-error (the candidate may hold a part of the edit), fail with a driver timeout / connection error while the session stays alive, or kill the connection (EOF, IsAlive false); " +
 		"oracle = the driver call sequence of every Set: empty document -> no call; running -> exactly [EditConfig(running, doc)]; candidate -> [EditConfig(candidate, doc), Commit] on success, [EditConfig, Discard] on edit failure, [EditConfig, Commit, Discard] on commit failure, no Commit / Discard after a dead connection (Close allowed); doc equals the harness' own rendering with the configured options; whenever Set returns an error over a live connection whose discard was not made to fail the device candidate is empty; every commit the device accepts makes exactly the current document effective (unless an earlier discard was made to fail); the error reaches the TransactionSet caller; " +
 		"non-trivial = at least one Set with a non-empty document was checked; distinct = distinct cases",
 	Gen:  gen,
